@@ -254,6 +254,8 @@ def check_class(ctx, cls_fq, spec):
                         else:
                             open_has = True
                             needs_reentrant.append((construct, op))
+            if held.get('self', 0) != 0:
+                fails.setdefault(('g', str(p.outcome[:2])), (p.ops[-1] if p.ops else None, 'lock still held', p, False))
             max_sections = max(max_sections, sections)
             if sections > 1:
                 fails.setdefault(('b', second.line if second else 0), (second, 'second critical section', p, False))
@@ -287,7 +289,12 @@ def check_class(ctx, cls_fq, spec):
                    detail='%d guarded access events; max sections per path %d' % (ga_total, max_sections),
                    nontrivial=ga_total > 0 or max_sections > 0)
         for k, (op, desc, p, single) in sorted(fails.items(), key=lambda kv: str(kv[0])):
-            if k[0] == 'a':
+            if k[0] == 'g':
+                ctx.ob('T6g', construct, 'the lock is released on every exit of the operation (an exception between acquire() and '
+                       'release() must not leave it held: every other thread would block forever)', False,
+                       loc='%s:%d' % (m.module.relpath, op.line if op is not None else m.node.lineno), path=p.describe(),
+                       detail='exit %s with the lock held' % (str(p.outcome[:2]) if p.kind == 'raise' else 'return'))
+            elif k[0] == 'a':
                 ctx.ob('T6a', construct, 'guarded access outside the lock: %s' % desc, False,
                        loc='%s:%d' % (op.fn.module.relpath if op.fn else m.module.relpath, op.line),
                        path=p.describe(), detail='in %s' % (op.fn.fq if op.fn else m.fq))
